@@ -106,7 +106,12 @@ func (c *C) freshValue(v ssa.Value, depth int, seen map[ssa.Value]bool) bool {
 	case *ssa.ChangeInterface:
 		return c.freshValue(x.X, depth+1, seen)
 	case *ssa.Phi:
-		for _, e := range x.Edges {
+		for i, e := range x.Edges {
+			// an edge that cannot have been taken when the store is reached: the store sits under `state == missing`, the
+			// edge comes from where `state == missing` was false
+			if c.freshUse != nil && i < len(x.Block().Preds) && edgeContradictsUse(x.Block().Preds[i], x.Block(), c.freshUse) {
+				continue
+			}
 			if !c.freshValue(e, depth+1, seen) {
 				return false
 			}
@@ -221,7 +226,9 @@ var rR26 = RuleRef{Name: "R26", Doc: "no aliasing between keys: a container stor
 				}
 				n++
 				k := canon(a.Key)
+				c.freshUse = b
 				ok2 := c.freshValue(val, 0, map[ssa.Value]bool{})
+				c.freshUse = nil
 				why := "stored container is not provably fresh"
 				pv := val
 				if mi, isMI := pv.(*ssa.MakeInterface); isMI {
@@ -282,6 +289,14 @@ var rR26 = RuleRef{Name: "R26", Doc: "no aliasing between keys: a container stor
 									if dc, ok := x.(*ssa.Call); ok {
 										if da := c.keyspaceAccess(dc); da != nil && da.Map == "db" && da.Method == "Delete" && canon(da.Key) == sk {
 											del = true
+										}
+										// a helper that removes the key it is given on every path (dropKey(m, key))
+										if cf := callee(dc); cf != nil && firstParty(cf) {
+											for _, pi := range c.dbDeleterParams(cf, 0) {
+												if pi < len(dc.Call.Args) && canon(dc.Call.Args[pi]) == sk {
+													del = true
+												}
+											}
 										}
 									}
 								}
@@ -1179,4 +1194,136 @@ func errReplyDescr(v ssa.Value) string {
 		return true
 	})
 	return out
+}
+
+// dbDeleterParams: the key parameters of fn that fn removes from the keyspace on every path to a return
+// (db.Delete(param) in the entry block's dominator chain of every return, directly or through such a helper).
+func (c *C) dbDeleterParams(fn *ssa.Function, depth int) []int {
+	if fn == nil || fn.Blocks == nil || depth > 2 {
+		return nil
+	}
+	var out []int
+	for pi, p := range fn.Params {
+		if bt, ok := p.Type().Underlying().(*types.Basic); !ok || bt.Info()&types.IsString == 0 {
+			continue
+		}
+		all, any := true, false
+		for _, b := range fn.Blocks {
+			if _, isRet := b.Instrs[len(b.Instrs)-1].(*ssa.Return); !isRet {
+				continue
+			}
+			any = true
+			found := false
+			for d := b; d != nil && !found; d = d.Idom() {
+				for _, in := range d.Instrs {
+					call, ok := in.(*ssa.Call)
+					if !ok {
+						continue
+					}
+					if a := c.keyspaceAccess(call); a != nil && a.Map == "db" && a.Method == "Delete" && a.Key == ssa.Value(p) {
+						found = true
+					} else if cf := callee(call); cf != nil && firstParty(cf) && cf != fn {
+						for _, qi := range c.dbDeleterParams(cf, depth+1) {
+							if qi < len(call.Call.Args) && call.Call.Args[qi] == ssa.Value(p) {
+								found = true
+							}
+						}
+					}
+				}
+			}
+			if !found {
+				all = false
+			}
+		}
+		if all && any {
+			out = append(out, pi)
+		}
+	}
+	return out
+}
+
+// branchFactsOf: the equality facts (value compared with a constant, and the outcome) that hold whenever block b runs:
+// the single-predecessor edges on its dominator chain.
+func branchFactsOf(b *ssa.BasicBlock) map[string]bool {
+	out := map[string]bool{}
+	for d := b; d != nil && d.Idom() != nil; d = d.Idom() {
+		id := d.Idom()
+		if len(d.Preds) != 1 || d.Preds[0] != id {
+			continue
+		}
+		cond, neg, ok := branchCond(id, d)
+		if !ok {
+			continue
+		}
+		truth := !neg
+		for {
+			u, isNot := cond.(*ssa.UnOp)
+			if !isNot || u.Op != token.NOT {
+				break
+			}
+			cond, truth = u.X, !truth
+		}
+		bo, isBo := cond.(*ssa.BinOp)
+		if !isBo || (bo.Op != token.EQL && bo.Op != token.NEQ) {
+			continue
+		}
+		var v ssa.Value
+		var k *ssa.Const
+		if kk, ok := bo.Y.(*ssa.Const); ok {
+			v, k = bo.X, kk
+		} else if kk, ok := bo.X.(*ssa.Const); ok {
+			v, k = bo.Y, kk
+		}
+		if k == nil || k.Value == nil {
+			continue
+		}
+		if bo.Op == token.NEQ {
+			truth = !truth
+		}
+		key := v.Name() + "==" + k.Value.ExactString()
+		if _, have := out[key]; !have {
+			out[key] = truth
+		}
+	}
+	return out
+}
+
+// edgeContradictsUse: the edge pred -> join cannot lie on a path to block use, because something that is known to hold
+// at use (v == K) is known not to hold where the edge starts, or the other way round.
+func edgeContradictsUse(pred, join, use *ssa.BasicBlock) bool {
+	atUse := branchFactsOf(use)
+	if len(atUse) == 0 {
+		return false
+	}
+	atPred := branchFactsOf(pred)
+	// the edge itself
+	if cond, neg, ok := branchCond(pred, join); ok {
+		if bo, isBo := cond.(*ssa.BinOp); isBo && (bo.Op == token.EQL || bo.Op == token.NEQ) {
+			if k, ok := bo.Y.(*ssa.Const); ok && k.Value != nil {
+				truth := !neg
+				if bo.Op == token.NEQ {
+					truth = !truth
+				}
+				atPred[bo.X.Name()+"=="+k.Value.ExactString()] = truth
+			}
+		}
+	}
+	for key, t := range atUse {
+		if tp, have := atPred[key]; have && tp != t {
+			return true
+		}
+	}
+	// v == K1 at the edge and v == K2 (another constant) at the use
+	for key, t := range atUse {
+		if !t {
+			continue
+		}
+		i := strings.Index(key, "==")
+		for kp, tp := range atPred {
+			if tp && kp != key && strings.HasPrefix(kp, key[:i+2]) {
+				return true
+			}
+		}
+	}
+	return false
 }
